@@ -28,10 +28,15 @@ AUDIO = {
 TEXTS = {
     "goforward": ["go forward ten meters", "go forward", "go forward ten", "forward ten meters", "ten meters",
                   "go backward ten meters", "go forward two meters", "go", "a go forward ten meters",
-                  "go forward ten meters the", "meters ten forward go", "i go forward ten meters"],
+                  "go forward ten meters the", "meters ten forward go", "i go forward ten meters",
+                  # one-phone dictionary words between words with different neighbouring phones
+                  "go a forward ten meters", "go forward a ten meters", "go oh forward ten meters",
+                  "go forward ten a meters", "go i forward oh ten e meters", "go forward uh ten meters",
+                  "go awe forward", "ten owe meters", "forward eye ten"],
     "austen8k": ["he was not an ill disposed young man", "he was not an ill", "he was not", "not an ill disposed young man",
-                 "he was a young man"],
-    "goforward_fr": ["avance de dix mètres", "avance de dix", "avance", "recule de dix mètres"],
+                 "he was a young man", "he was not a ill disposed young man", "he was oh not an ill", "he i was not"],
+    "goforward_fr": ["avance de dix mètres", "avance de dix", "avance", "recule de dix mètres",
+                     "avance et de dix mètres", "avance de à dix mètres", "avance ou de dix"],
 }
 
 JSGF = {
@@ -62,7 +67,7 @@ def gen_case(rng, i, tier, stats):
     path, skip, total, model, extra = AUDIO[an]
     cfg = dict(extra)
     # clip of the recording
-    ck = rng.weighted([("whole", 45), ("prefix", 25), ("inner", 20), ("suffix", 10)])
+    ck = rng.weighted([("whole", 35), ("prefix", 25), ("inner", 30), ("suffix", 10)])
     if ck == "whole":
         start, n = 0, total
     elif ck == "prefix":
@@ -107,7 +112,36 @@ def gen_case(rng, i, tier, stats):
     if rng.chance(0.06):
         # (amplitude 0 = digital silence makes the front end produce NaN features: C18's subject, not used here)
         noise = [rng.below(1 << 30), rng.range(3000, 30000), rng.choice([3, 30, 300, 3000])]
+    # streaming patterns aimed at the growth boundaries of the feature buffer (128, 256, ... frames): one frame shift per
+    # call, a run of one-shift calls followed by normal chunks, 1-3 shifts per call
+    shift = 80 if an == "austen8k" else 160
+    chunkseq = []
+    if mode in ("stream", "nogrow") and rng.chance(0.35):
+        pat = rng.choice(["all-shift", "run-then-big", "small-multiples"])
+        if pat == "all-shift":
+            chunk, chunkseq = shift, []
+        elif pat == "run-then-big":
+            m = rng.range(130, 175) if rng.chance(0.6) else rng.range(258, 300)
+            chunkseq = [[shift, m]]
+            chunk = rng.choice([800, 2048, 4000])
+        else:
+            chunkseq = [[shift * rng.range(1, 3), rng.range(1, 40)] for _ in range(12)]
+            chunk = shift * rng.range(1, 3)
+        stats["extra"]["chunk-pattern " + pat] = stats["extra"].get("chunk-pattern " + pat, 0) + 1
+        # partial requests at call granularity, some right at the growth boundaries
+        partials = sorted({rng.choice([rng.range(100, 140), rng.range(120, 135), rng.range(250, 262), rng.below(400)])
+                           for _ in range(rng.range(0, 3))})
+    # further utterances on the same decoder without setting the grammar again, same sample count, other audio
+    utts = []
+    if n < total and rng.chance(0.4):
+        for _ in range(rng.range(1, 2)):
+            st2 = rng.range(0, total - n)
+            if st2 != start:
+                utts.append([str(path), skip, st2, n])
+        if utts:
+            stats["extra"]["multi-utterance"] = stats["extra"].get("multi-utterance", 0) + 1
     case = {"id": f"g{i}", "model": model, "cfg": cfg, "gram": [gk, gram], "audio": [str(path), skip, start, n],
+            "chunkseq": chunkseq, "utts": utts,
             "addwords": addwords, "noise": noise, "tmatskip": (rng.choice([20, 60, 120]) if rng.chance(0.07) else 0),
             "audio_name": an, "mode": mode, "chunk": chunk, "partials": partials, "early": int(rng.chance(0.15)),
             "dumpsen": int(rng.chance(0.35))}
@@ -139,6 +173,10 @@ def case_text(case):
         ls.append(f"tmatskip {case['tmatskip']}")
     ls.append(f"mode {case['mode']}")
     ls.append(f"chunk {case['chunk']}")
+    if case.get("chunkseq"):
+        ls.append("chunkseq " + " ".join(f"{a}x{b}" for a, b in case["chunkseq"]))
+    for u in case.get("utts") or []:
+        ls.append(f"utt {vlib.REPO / u[0]} {u[1]} {u[2]} {u[3]}")
     if case["partials"]:
         ls.append("partial " + " ".join(str(p) for p in case["partials"]))
     ls.append(f"early {case.get('early', 0)}")
@@ -255,7 +293,9 @@ def judge_block(case, hb, db, ci_names, stats):
     fp = [l.split() for l in hb if l.startswith("FP ")]
     fpw = [(int(w[1]), w[2], int(w[3]), int(w[4]), int(w[5]), int(w[6])) for w in fp if int(w[1]) >= 0]
     stats["requests"] += 1
-    stats["partial" if tag != "final" else "final"] += 1
+    stats["partial" if not tag.endswith("final") else "final"] += 1
+    if tag.startswith("u") and tag.endswith("final"):
+        stats["later_utterance_requests"] = stats.get("later_utterance_requests", 0) + 1
     if len(fp) != len(fpw):
         stats["fp_with_nondict_segments"] += 1
     dic = {int(l.split()[1]): l.split() for l in hb if l.startswith("D ")}
@@ -702,8 +742,10 @@ def check(c):
         "Theorems (all inputs, any number of words/phones/frames): populate_structure, backtrace_partition, "
         "children_are_blocks, boundaries_preserved, scores_add_up over the model of alignment_populate / "
         "state_align_search_finish / alignment_propagate / the child iterators, under the executable hypothesis wfTokens; "
-        "alignOKB = AlignOK; alignStep_tokens_local_partial (every token of the constrained Viterbi is local when the "
-        "matrices have no skips).  Tie: every alignment the real decoder returned in this run was (1) judged by alignOKB "
+        "alignOKB = AlignOK; alignStep_WFTokens (the token stack of the constrained Viterbi model satisfies wfTokens whenever "
+        "the final score is alive: NoSkip, C-type ranges, ef non-decreasing, T < 16 140; renormalisation branch included), "
+        "hence model_run_hierarchy without a token-stack hypothesis; word_score_is_acoustic_part_partial (the final "
+        "out-score = max over admissible window-constrained monotone paths of the summed senone+transition scores).  Tie: every alignment the real decoder returned in this run was (1) judged by alignOKB "
         "on the iterator-API output, (2) recomputed by the model from the dumped first-pass segmentation, dict2pid tables "
         "and token stack and compared entry by entry, (3) its token stack checked against wfTokens/NoSkip, and for a third "
         "of the requests (4) recomputed frame by frame by the step model from the senone scores a hand-stepped second pass "
